@@ -14,7 +14,7 @@ from hyverif.oracles import transforms_ref as tr
 
 ID = "C01"
 SHARDS = {"quick": 16, "thorough": 16}
-BUDGET = {"quick": 60, "thorough": 600}
+BUDGET = {"quick": 300, "thorough": 1800}
 RULE = ("13 transform classes, built through get_transform and through the class "
         "constructor + item assignment; parameter vectors: bounds, defaults, exact "
         "branch values (lam in {0, +-1e-10, +-1e-10(1+-1e-7), +-1.5e-10, 2e-10, "
